@@ -470,4 +470,17 @@ theorem respSpec_sim (i : Input) (resp : VerifySignatureResponse) (pre : List Va
       | ok s' => rw [h1, h2] at this; exact this.elim
       | error s' => rw [h1, h2] at this; exact this
 
+/-- plugin discovery goes through -/
+def discOK (i : Input) : Bool :=
+  i.pluginAttr == .absent ||
+  (i.pluginAttr == .named && (i.minVerAttr == .absent || i.minVerAttr == .valid) &&
+    i.pluginState == .installed && i.pluginVersion != .invalidSemver &&
+    !(i.minVerAttr == .valid && i.pluginVersion == .tooOld) && !(capsOf i).isEmpty)
+
+theorem discover_spec (i : Input) :
+    ∃ s, s.results = [] ∧ discover i {} = (if discOK i then .ok s else .error s) := by
+  unfold discover discOK
+  cases i.pluginAttr <;> cases i.minVerAttr <;> cases i.pluginState <;> cases i.pluginVersion <;>
+    cases (capsOf i).isEmpty <;> simp <;> exact ⟨_, rfl, rfl⟩
+
 end NotationModel.C02.Process
